@@ -184,11 +184,14 @@ class World:
     """state of the scripted native layer for ONE call of a Process method"""
 
     def __init__(self, emu, pid=42, fault_at=None, err=None, state="alive", pid0_listed=True,
-                 sticky=False):
+                 sticky=False, fault2_at=None, err2=None, overrides=None):
         self.emu = emu
         self.pid = pid
         self.fault_at = fault_at          # index in the native-call sequence, or None
         self.err = err                    # (errno, winerror|None)
+        self.fault2_at = fault2_at        # a second, later index (two-fault sequences), or None
+        self.err2 = err2
+        self.overrides = overrides or {}  # native name -> script(world, *args) for this one case
         self.state = state                # seen by the probe primitives AFTER the fault fired
         self.pid0_listed = pid0_listed
         self.sticky = sticky              # the faulted *function* keeps failing afterwards
@@ -225,9 +228,13 @@ class NativeFn:
             w.switched = True
             w.sticky_name = self.name
             raise make_oserror(w.err, self.emu.windows)
-        if self.script is None:
+        if w.fault2_at is not None and idx == w.fault2_at:
+            w.switched = True
+            raise make_oserror(w.err2, self.emu.windows)
+        script = w.overrides.get(self.name, self.script)
+        if script is None:
             raise Unscripted(self.name)
-        return self.script(w, *a, **kw)
+        return script(w, *a, **kw)
 
     def __repr__(self):
         return "<scripted native %s>" % self.name
@@ -742,11 +749,11 @@ class Emu:
         return ()
 
     def run(self, meth, pid=42, fault_at=None, err=None, state="alive", pid0_listed=True,
-            name="c20cached", ppid=7, sticky=False, args=None):
+            name="c20cached", ppid=7, sticky=False, args=None, fault2_at=None, err2=None):
         """Call the platform module's Process(pid).<meth>() over a scripted world.
         Returns (observable, trace). Every exception is an observable."""
         self.clear_caches()
-        w = World(self, pid, fault_at, err, state, pid0_listed, sticky)
+        w = World(self, pid, fault_at, err, state, pid0_listed, sticky, fault2_at, err2)
         self.world = w
         self.in_terminal = meth == "terminal"
         try:
